@@ -279,6 +279,12 @@ func (m *Manager) LoadSession(context interface{}, id []byte, state *vlpersisten
 		ctx.bar.IncrBy(1, time.Since(ctx.startTS))
 	}()
 
+	if state == nil {
+		// the session has been created but never had any state to store
+		m.Metrics.Clients().OnPersisted(1)
+		return nil
+	}
+
 	if len(state.Errors) != 0 {
 		m.log.Error("Session load", zap.String("ClientID", sID), zap.Errors("errors", state.Errors))
 		// if err := m.persistence.SubscriptionsDelete(id); err != nil && err != persistence.ErrNotFound {
@@ -822,6 +828,11 @@ func (m *Manager) sessionTimer(id string, expired bool) {
 
 func (m *Manager) configurePersistedSubscribers(ctx *loadContext) {
 	for id, t := range ctx.preloadConfigs {
+		if t.sub == nil {
+			// this session has only a pending expiry / delayed will
+			continue
+		}
+
 		sub := subscriber.New(
 			subscriber.Config{
 				ID:             id,
@@ -849,6 +860,11 @@ func (m *Manager) configurePersistedSubscribers(ctx *loadContext) {
 
 func (m *Manager) configurePersistedExpiry(ctx *loadContext) {
 	for id, t := range ctx.preloadConfigs {
+		if t.exp == nil {
+			// this session has only subscriptions
+			continue
+		}
+
 		cont := &container{
 			removable: true,
 			removed:   false,
@@ -856,12 +872,16 @@ func (m *Manager) configurePersistedExpiry(ctx *loadContext) {
 
 		m.expiryCount.Add(1)
 
+		t.exp.id = id
 		exp := newExpiry(*t.exp)
 
 		cont.expiry.Store(exp)
 		if c, present := m.sessions.LoadOrStore(id, cont); present {
 			cnt := c.(*container)
 			cnt.expiry.Store(exp)
+		} else {
+			// a container of its own: it is counted like every other one
+			m.sessionsCount.Add(1)
 		}
 
 		exp.start()
@@ -903,8 +923,11 @@ func (m *Manager) decodeSessionExpiry(ctx *loadContext, id string, state *vlpers
 		pkt, _, _ := mqttp.Decode(mqttp.ProtocolV50, state.Expire.Will)
 		will, _ = pkt.(*mqttp.Publish)
 
-		if prop := pkt.PropertyGet(mqttp.PropertyWillDelayInterval); prop != nil {
-			willIn, _ = prop.AsInt()
+		if will != nil {
+			if prop := will.PropertyGet(mqttp.PropertyWillDelayInterval); prop != nil {
+				willIn, _ = prop.AsInt()
+			}
+
 			willAt := since.Add(time.Duration(willIn) * time.Second)
 			if time.Now().After(willAt) {
 				// will delay elapsed. notify keep in list and publish when all persisted sessions loaded
@@ -983,8 +1006,7 @@ func (m *Manager) decodeSubscriber(ctx *loadContext, id string, from []byte) err
 	offset := 0
 	version := mqttp.ProtocolVersion(from[offset])
 	offset++
-	remaining := len(from) - 1
-	for offset != remaining {
+	for offset < len(from) {
 		t, total, e := mqttp.ReadLPBytes(from[offset:])
 		if e != nil {
 			return e
